@@ -1,5 +1,5 @@
 """C06 — decoded audio depends only on frame position (seek consistency)."""
-from engine.seekrules import seek_table, oracle
+from engine.seekrules import seek_table, oracle, dispatch_sites, lenient_path
 from engine.util import assigned_lvalues
 from engine.bounds import Bounds
 from engine.effects import Effects
@@ -37,30 +37,31 @@ def run(ctx):
             ok = got['rets'] == [exp['early']] and not got['seek_called']
             msg = 'expected early return of %s; got returns %s, codec seek reached: %s' % (exp['early'], got['rets'], got['seek_called'])
         else:
-            ok = got['target'] == [exp['target']] and got['seek_called'] and 'retval' in got['rets']
+            ok = got['target'] == [exp['target']] and got['seek_called'] and got['ret_dispatch']
             msg = 'expected target %s; got %s, codec seek reached: %s, returns %s' % (exp['target'], got['target'], got['seek_called'], got['rets'])
         ctx.ob('WHENCE', key, ok, f.loc(f.body), msg, got)
 
-    ctx.rule('SEEK-GATE', 'the indirect call psf->seek in sf_seek is dominated by the seekable test, by `seek_from_start < 0` -> SFE_BAD_SEEK, and in read mode by `seek_from_start > sf.frames` -> SFE_BAD_SEEK (read mode = the open mode of the handle, psf->file.mode)', floor=4)
-    call = [c for c in f.calls() if prog.indirect_callee_slot(f, c) and prog.indirect_callee_slot(f, c)[1] == 'seek']
-    ctx.require(call, 'sf_seek has no codec seek dispatch')
-    bd = Bounds(prog, f, eff)
-    tn = [n for n in f.walk() if n['k'] == 'DeclRefExpr' and n['n'] == 'seek_from_start']
-    b = bd.ev_at(tn[0], f.cfg.point(call[0]))
-    ctx.ob('SEEK-GATE', 'nonneg', b.lo is not None and b.lo >= 0, f.loc(call[0]), 'target >= 0 at the codec seek: %r' % b, None)
-    sk = [n for n in f.walk() if n['k'] == 'MemberExpr' and f.s(n) == 'psf->sf.seekable']
-    bs = bd.ev_at(sk[0], f.cfg.point(call[0])) if sk else None
-    ctx.ob('SEEK-GATE', 'seekable', bs is not None and (bs.lo is not None and bs.lo >= 1 or ('!=', '0') in bs.lbs), f.loc(call[0]), 'seekable test dominates the codec seek: %r' % bs, None)
-    # read mode upper bound: a branch `seek_from_start > psf->sf.frames` exists whose true edge stores SFE_BAD_SEEK and it is on every read-mode path
-    ub = [blk for blk in f.cfg.blocks.values() if 'cond' in blk and '(seek_from_start > psf->sf.frames)' in f.s(blk['cond'])
-          and f.cfg.dominates((blk['id'], len(blk['elems'])), call[0]) is not None]
-    ctx.ob('SEEK-GATE', 'upper-read', bool(ub), f.loc(call[0]), 'range test target > frames %s' % ('present' if ub else 'MISSING'), None)
-    # which handles get the lenient (write style) range test is decided by the handle's open mode, never by the mode bits of `whence`
-    lenient = [n for n in f.walk() if n['k'] == 'IfStmt' and n.get('else') is not None and any(x['k'] == 'IfStmt' and '(seek_from_start > psf->sf.frames)' in f.s(x['cond']) for x in f.walk(n['else']))
-               and '(seek_from_start > psf->sf.frames)' not in f.s(n['cond'])]
-    okm = bool(lenient) and all(f.s(n['cond']).replace(' ', '') in ('((psf->file.mode==SFM_RDWR)||(psf->file.mode==SFM_WRITE))', '((psf->file.mode==SFM_WRITE)||(psf->file.mode==SFM_RDWR))') for n in lenient[-1:])
-    ctx.ob('SEEK-GATE', 'upper-read:mode', okm, f.loc(lenient[-1]) if lenient else f.loc(call[0]), 'the strict upper range test is skipped %s' % ('exactly for handles opened SFM_WRITE / SFM_RDWR' if okm else
-           'under `%s`, which is not the handle\'s open mode: a read-only handle can be sought past its last frame with a mode-qualified whence' % (f.s(lenient[-1]['cond'])[:80] if lenient else '?')), None)
+    ctx.rule('SEEK-GATE', 'the indirect call psf->seek reached from sf_seek (directly or through a static helper of sndfile.c) is dominated by the seekable test and by `target < 0` -> SFE_BAD_SEEK, '
+             'and every path to it either found `target > sf.frames` false or found the open mode of the handle (psf->file.mode, never the mode bits of whence) to be a writing one', floor=3)
+    sites = dispatch_sites(prog, f)
+    ctx.require(sites, 'sf_seek has no codec seek dispatch')
+    nn, sk_ok, facts = False, False, []
+    for (g, c, tgt) in sites:
+        bd = Bounds(prog, g, eff)
+        b = bd.ev_at(g.unwrap(tgt), g.cfg.point(c))
+        facts.append('%s: %r' % (g.name, b))
+        nn = nn or (b.lo is not None and b.lo >= 0)
+        sk = [n for n in g.walk() if n['k'] == 'MemberExpr' and g.s(n) == 'psf->sf.seekable']
+        bs = bd.ev_at(sk[0], g.cfg.point(c)) if sk else None
+        sk_ok = sk_ok or (bs is not None and (bs.lo is not None and bs.lo >= 1 or ('!=', '0') in bs.lbs))
+    g0, c0, _ = sites[0]
+    ctx.ob('SEEK-GATE', 'nonneg', nn, g0.loc(c0), 'target >= 0 at the codec seek: %s' % '; '.join(facts), None)
+    ctx.ob('SEEK-GATE', 'seekable', sk_ok, g0.loc(c0), 'seekable test %s the codec seek' % ('dominates' if sk_ok else 'does NOT dominate'), None)
+    wit = [(g, lenient_path(prog, g, c, tgt)) for (g, c, tgt) in sites]
+    bad = all(w is not None for _, w in wit)
+    ctx.ob('SEEK-GATE', 'upper-read', not bad, g0.loc(c0), 'every path to the codec seek has `target > frames` false or a writing open mode' if not bad else
+           'a path reaches the codec seek on which neither `target > psf->sf.frames` was found false nor psf->file.mode was found to be SFM_WRITE / SFM_RDWR (lines %s): '
+           'a read-only handle can be sought past its last frame' % ' / '.join('%s %s' % (g.name, g.cfg.block_lines(w)[-6:]) for g, w in wit), None)
 
     ctx.rule('SEEK-ERR', 'sf_seek and every function in the seek slot: every `return PSF_SEEK_ERROR` / `return -1` is preceded on all paths by a store of a non-zero value into psf->error, '
              'or happens under a test of psf->error; no return statement returns an SFE_* error constant as a position', floor=20)
@@ -159,16 +160,18 @@ def run(ctx):
              '(a failed seek must leave both positions as they were)', floor=3)
     from engine.bounds import Bounds as _Bd
     from engine.util import assigned_lvalues as _al2
-    sk = prog.fn('sf_seek', 'sndfile.c')
+    sk = seek_table.roles['sites'][-1][0]                    # the function that holds the dispatch: sf_seek, or the static helper it was moved to
+    resvar = seek_table.roles['resvar']
+    ctx.require(resvar, 'the result of the codec seek is not kept in a variable')
     bd_ = _Bd(prog, sk, eff)
     nst = 0
     for lv, a, r in _al2(sk):
-        if lv in ('psf->read_current', 'psf->write_current') and r is not None and sk.s(sk.unwrap(r)) == 'retval':
+        if lv in ('psf->read_current', 'psf->write_current') and r is not None and sk.s(sk.unwrap(r)) == resvar:
             nst += 1
             b = bd_.ev_at(sk.unwrap(r), sk.cfg.point(a))
             ok = b.lo is not None and b.lo >= 0
-            ctx.ob('SEEK-RESULT', '%s#%d' % (lv, nst), ok, sk.loc(a), '%s = retval with retval >= %s%s' % (lv, b.lo, '' if ok else ' — PSF_SEEK_ERROR (-1) from a failed codec seek becomes the position'), repr(b))
-    ctx.require(nst >= 3, 'only %d stores of the codec seek result found in sf_seek' % nst)
+            ctx.ob('SEEK-RESULT', '%s#%d' % (lv, nst), ok, sk.loc(a), '%s = %s with %s >= %s%s' % (lv, resvar, resvar, b.lo, '' if ok else ' — PSF_SEEK_ERROR (-1) from a failed codec seek becomes the position'), repr(b))
+    ctx.require(nst >= 3, 'only %d stores of the codec seek result found in %s' % (nst, sk.name))
 
     from engine.run import borrow
     borrow(ctx, 'C05', ['STAGING'], 'a staging loop that delivers more (or other) items for one large request than for the same request in pieces makes the samples depend on the partition')
